@@ -1,0 +1,47 @@
+//go:build verif
+
+package core
+
+import (
+	"github.com/glebziz/fs_db/internal/model"
+	"github.com/glebziz/fs_db/internal/model/core"
+)
+
+// VerifTx returns (creating it if needed) the per-transaction store.
+func (u *UseCase) VerifTx(txId string) *core.Transaction {
+	tx, ok := u.txStore.Get(txId)
+	if !ok {
+		tx = u.txPool.Acquire()
+		u.txStore.Put(txId, tx)
+	}
+
+	return tx
+}
+
+// VerifStoreToTx pushes f, with the sequence number it carries, exactly as
+// Store and UpdateTx do after drawing a number.
+func (u *UseCase) VerifStoreToTx(txId string, f model.File) {
+	u.storeToTx(u.VerifTx(txId), f)
+}
+
+// VerifPop pops the front (or back) version of key in the given store the way
+// DeleteTx/UpdateTx do, including the unlink from the all-store.
+func (u *UseCase) VerifPop(txId, key string, back bool) (model.File, bool) {
+	f := u.VerifTx(txId).File(key)
+
+	var n *core.Node[model.File]
+	if back {
+		n = f.PopBack()
+	} else {
+		n = f.PopFront()
+	}
+	if n == nil {
+		return model.File{}, false
+	}
+
+	v := n.V()
+	link := n.DeleteLink()
+	u.nodePool.Release(link, n)
+
+	return v, true
+}
